@@ -405,7 +405,8 @@ def run_case(spec):
         if rng.random() < 0.5:
             d = ns(command='decoyFasta', input_path=src_fa, output_path=Path(wd) / 'decoy.fasta', decoy_string=dstr,
                    decoy_string_position=dpos, method='reverse', enzyme=None, non_shuffle_pattern='', shuffle_max_attempts=3,
-                   keep_peptide_nterm='true', keep_peptide_cterm='true', seed=1, order='juxtaposed')
+                   keep_peptide_nterm='true', keep_peptide_cterm='true', seed=1,
+                   order=rng.choice(['juxtaposed', 'target_first', 'decoy_first']))
             with drivers.quiet():
                 decoy_fasta(d)
             src_fa = Path(wd) / 'decoy.fasta'
